@@ -78,4 +78,75 @@ theorem redelegate_keeps
       · have h1 := redelegateUnbond_keeps π hv hst _ _ _ _ _ _ _ s1 g' tokens (by rw [hu])
         rw [redelegateDelegate_keeps π hv hsend hst _ _ _ _ _ _ _ _ _ _ h, h1]
 
+/-! ### the same under a condition on the environment (e.g. "the store order of node records is injective") -/
+variable (P : Env → Prop)
+
+theorem redelegateUnbond_keepsP
+    (hv : ∀ (e : Env), P e → ∀ (s s' : State) (g g' : Dec) (v : ValAddr) (a : Option Addr) (b : Bool), verifySuper e s g v a b = .ok (s', g') → π s' = π s)
+    (hst : ∀ (s : State) (x : StakingView), π { s with staking := x } = π s)
+    (e : Env) (hP : P e) (s : State) (v : ValidatorV) (d : DelegationV) (del : Addr) (src : ValAddr) (shares : Dec) (s1 : State) (g' : Dec) (t : Int)
+    (h : (redelegateUnbond e s v d del src shares).2 = .ok (s1, g', t)) : π s1 = π s := by
+  unfold redelegateUnbond at h
+  dsimp only at h
+  split at h
+  · cases h
+  · rename_i s2 g2 hr
+    simp only [pure, Except.pure, Except.ok.injEq, Prod.mk.injEq] at h
+    rw [← h.1, hst]
+    split at hr
+    · obtain ⟨x, hx, hr⟩ := bind_ok hr
+      obtain ⟨sx, gx⟩ := x
+      simp only [pure, Except.pure, Except.ok.injEq, Prod.mk.injEq] at hr
+      rw [← hr.1, hst]
+      exact hv _ hP _ _ _ _ _ _ _ hx
+    · rw [hv _ hP _ _ _ _ _ _ _ hr, hst]
+
+theorem redelegateDelegate_keepsP
+    (hv : ∀ (e : Env), P e → ∀ (s s' : State) (g g' : Dec) (v : ValAddr) (a : Option Addr) (b : Bool), verifySuper e s g v a b = .ok (s', g') → π s' = π s)
+    (hsend : ∀ (s s' : State) (a b : Addr) (x : Int), s.send a b x = .ok s' → π s' = π s)
+    (hst : ∀ (s : State) (x : StakingView), π { s with staking := x } = π s)
+    (e : Env) (hP : P e) (s : State) (g' : Dec) (v v2 : ValidatorV) (del : Addr) (src dst : ValAddr) (tokens : Int) (s' : State)
+    (h : (redelegateDelegate e s g' v v2 del src dst tokens).2 = .ok s') : π s' = π s := by
+  unfold redelegateDelegate at h
+  split at h
+  · cases h
+  · dsimp only at h
+    split at h
+    · cases h
+    · rename_i s3 hs3
+      have hs3' : π s3 = π s := by
+        split at hs3
+        · exact hsend _ _ _ _ _ hs3
+        · split at hs3
+          · exact hsend _ _ _ _ _ hs3
+          · simp only [pure, Except.pure, Except.ok.injEq] at hs3
+            rw [← hs3]
+      split at h
+      · cases h
+      · rename_i s4 g4 hv4
+        have hs4 : π s4 = π s := by rw [hv _ hP _ _ _ _ _ _ _ hv4, hst, hs3']
+        split at h
+        · simp only [pure, Except.pure, Except.ok.injEq] at h
+          rw [← h]; exact hs4
+        · simp only [pure, Except.pure, Except.ok.injEq] at h
+          rw [← h, hst]; exact hs4
+
+theorem redelegate_keepsP
+    (hv : ∀ (e : Env), P e → ∀ (s s' : State) (g g' : Dec) (v : ValAddr) (a : Option Addr) (b : Bool), verifySuper e s g v a b = .ok (s', g') → π s' = π s)
+    (hsend : ∀ (s s' : State) (a b : Addr) (x : Int), s.send a b x = .ok s' → π s' = π s)
+    (hst : ∀ (s : State) (x : StakingView), π { s with staking := x } = π s)
+    (e : Env) (hP : P e) (s : State) (g : Dec) (del : Addr) (src dst : ValAddr) (amt : Int) (s' : State)
+    (h : (stakeRedelegate e s g del src dst amt).2 = .ok s') : π s' = π s := by
+  unfold stakeRedelegate at h
+  split at h
+  · cases h
+  · split at h
+    · cases h
+    · rename_i s1 g' tokens hu
+      split at h
+      · cases h
+      · have h1 := redelegateUnbond_keepsP π P hv hst _ hP _ _ _ _ _ _ s1 g' tokens (by rw [hu])
+        rw [redelegateDelegate_keepsP π P hv hsend hst _ hP _ _ _ _ _ _ _ _ _ h, h1]
+
+
 end SaoVerif
